@@ -1284,12 +1284,14 @@ Proof.
   split.
   - unfold oracle. change (c_prop (model_case prop bnd started clients sched ls s)) with prop.
     destruct prop as [|[|[|[|n]]]]; rewrite ?O1, ?O2, ?O3; reflexivity.
-  - unfold corr, model_case, model_obs, start_state.
-    cbn [c_replay c_started c_clients c_bound c_sched c_labels c_obs negb
-         o_status o_qlen o_delivered o_dropped o_pushed o_terminal].
-    fold c. fold (start_of started clients). rewrite Hrun.
-    rewrite (list_eqb_refl label_eqb ls label_eqb_refl), status_eqb_refl, Nat.eqb_refl,
-      !nat_list_eqb_refl, Bool.eqb_reflx. reflexivity.
+  - assert (E : corr_exact (model_case prop bnd started clients sched ls s) = true).
+    { unfold corr_exact, obs_matches, model_case, model_obs, start_state.
+      cbn [c_replay c_started c_clients c_bound c_sched c_labels c_obs negb
+           o_status o_qlen o_delivered o_dropped o_pushed o_terminal].
+      fold c. fold (start_of started clients). rewrite Hrun.
+      rewrite (list_eqb_refl label_eqb ls label_eqb_refl), status_eqb_refl, Nat.eqb_refl,
+        !nat_list_eqb_refl, Bool.eqb_reflx. reflexivity. }
+    unfold corr. rewrite E. destruct (negb _); reflexivity.
 Qed.
 
 (* ------------------------------------------------------------------ *)
